@@ -172,6 +172,8 @@ def run(chk):
     chk.rule("bond-index", "the kept-count limit looked up for a truncation is the limit of the bond being truncated (explicit list and configuration path agree)", 6)
     from .C05 import bond_index_rule
     bond_index_rule(chk, src, "bond-index")
+    from . import tree_rules as TR
+    TR.decomposition_axes(chk, src, topologies=("generic",))
     from .C06 import sweep_centre_rule
     sweep_centre_rule(chk, src)
     # ---- pass-through of full_matrices inside svd_qn
